@@ -56,7 +56,7 @@ class ExpSystem(System):
         cfgs = []
         quick = tier == "quick"
         heavy = prop in ("C05", "C06", "C19")
-        budget = (8000 if heavy else 40000) if quick else (80000 if heavy else 600000)
+        budget = (6000 if heavy else 40000) if quick else (80000 if heavy else 600000)
         es = (1, 2, 3) if quick else (1, 2, 3, 4)
         rates = (0.05, 0.3)
         strats = ("fnv", "md5")
